@@ -1066,7 +1066,15 @@ func (b *Bitmap) writeToUnoptimized(w io.Writer) (n int64, err error) {
 	// Remove empty containers before persisting.
 	//b.removeEmptyContainers()
 
-	containerCount := b.Containers.Size() - b.countEmptyContainers()
+	// Count exactly the containers that the loops below write. Size() also
+	// counts entries that Optimize has turned into nil containers, which the
+	// iterators skip, so Size()-countEmptyContainers() can exceed that.
+	containerCount := 0
+	for citer, _ := b.Containers.Iterator(0); citer.Next(); {
+		if _, c := citer.Value(); c.N() > 0 {
+			containerCount++
+		}
+	}
 	headerSize := headerBaseSize
 	byte2 := make([]byte, 2)
 	byte4 := make([]byte, 4)
